@@ -41,7 +41,7 @@ def make_watcher(sn, wallet, clock):
     finally:
         sys.argv = argv
     mw.send_queues = [FakeQueue()]
-    mw.start_time = datetime.fromtimestamp(clock() - 10)
+    mw.start_time = datetime.fromtimestamp(clock() - 10_000_000)   # long before any clock value the scenario sets
     mw.wallet = wallet
     mw.coinstate = sn.lp().chain_manager.coinstate
     mw.network_thread = Thread(sn.lp())
@@ -51,7 +51,7 @@ def make_watcher(sn, wallet, clock):
     return mw
 
 
-def scenario(ck, trial, tier, reqs_assembly, reqs_node):
+def scenario(ck, trial, tier, reqs_assembly, reqs_node, clock_offsets=(-500, -1, 0, 1, 30, 4000)):
     from skepticoin import mining as MI
     from skepticoin import consensus as C
     from skepticoin.wallet import Wallet
@@ -102,7 +102,7 @@ def scenario(ck, trial, tier, reqs_assembly, reqs_node):
                         sn.node.activate()
                         cm.add_transaction_to_pool(t)
                     # clock before / at / after the head's timestamp
-                    net.clock.t = head.view.time + rng.choice([-500, -1, 0, 1, 30, 4000])
+                    net.clock.t = head.view.time + rng.choice(list(clock_offsets))
                     pool = list(cm.transaction_pool)
                     before = sn.observe()
                     cs_before = cm.coinstate
@@ -134,7 +134,7 @@ def scenario(ck, trial, tier, reqs_assembly, reqs_node):
                         with contextlib.redirect_stdout(io.StringIO()):
                             mw.handle_request_scrypt_input_message(0, nonce)
                         typ, (summary, height) = mw.send_queues[0].items[-1]
-                        txs = mw.mining_args[0][2]
+                        txs = mw.mining_args[0][-1]
                         par = byid.get(bytes(summary.previous_block_hash))
                         served = bytes(cm.coinstate.current_chain_hash)
                         if par is None or par.id != served or not summary.timestamp > par.view.time:
@@ -253,6 +253,105 @@ def scenario(ck, trial, tier, reqs_assembly, reqs_node):
                     MI.time = old_time
 
 
+def stale_result_scenario(ck, trial, tier):
+    """the miner thread's winning result arrives for a candidate handed out BEFORE the network thread adopted 0, 1 or 2
+    peer blocks (optionally another worker has asked for work on the new head in between): the found block -- valid on its
+    parent, which the node stores -- still becomes part of the served state, is stored and is broadcast once"""
+    from skepticoin import mining as MI
+    from skepticoin import consensus as C
+    from skepticoin.wallet import Wallet
+    from skepticoin.datatypes import Block, BlockHeader
+    from skepticoin.networking import messages as M
+    rng = ck.rng
+    keys = chaingen.Keys()
+    k_between = trial % 3
+    other_worker = (trial // 3) % 2 == 1
+    with chaingen.Env(period=50) as env:
+        tg = chaingen.TreeGen(env, keys, rng)
+        n = tg.genesis
+        for _ in range(3):
+            n = tg.extend(n, txs=[], fees=0, dt=100)
+        main = list(tg.nodes)
+        with simnet.Net(seed=rng.getrandbits(30), t0=n.view.time + 5) as net:
+            old_time = getattr(MI, 'time', None)
+            if old_time is not None:
+                MI.time = net.clock
+            try:
+                sn = nodeharness.SingleNode(net, chaingen.impl_state_from(main), [m.block for m in main[1:]], npeers=2)
+                sn.new_messages()
+                wallet = Wallet({pk: sk.to_string() for pk, sk in keys.by_pk.items()}, list(keys.pks), {})
+                with contextlib.redirect_stdout(io.StringIO()):
+                    mw = make_watcher(sn, wallet, net.clock)
+                mw.send_queues = [FakeQueue(), FakeQueue()]
+                cand = None
+                for nonce in range(20000):
+                    sn.node.activate()
+                    with contextlib.redirect_stdout(io.StringIO()):
+                        mw.handle_request_scrypt_input_message(0, nonce)
+                    typ, (summary, height) = mw.send_queues[0].items[-1]
+                    txs = mw.mining_args[0][-1]
+                    sh = C.construct_summary_hash(summary, height)
+                    ev = C.construct_pow_evidence_after_scrypt(sh, mw.coinstate, summary, height, txs)
+                    c_ = Block(BlockHeader(summary, ev), txs)
+                    if c_.hash() < c_.target:
+                        cand = c_
+                        break
+                if cand is None:
+                    return
+                head = n
+                for j in range(k_between):
+                    pb = tg.extend(head, txs=[], fees=0, dt=max(1, net.clock() + 3 - head.view.time))
+                    sn.deliver(1, M.DataMessage(M.DATA_BLOCK, pb.block))
+                    head = pb
+                if bytes(sn.lp().chain_manager.coinstate.current_chain_hash) != head.id:
+                    ck.disagree('peer blocks were not adopted in the stale-result scenario', {'trial': trial})
+                    return
+                if other_worker:
+                    sn.node.activate()
+                    with contextlib.redirect_stdout(io.StringIO()):
+                        mw.handle_request_scrypt_input_message(1, 4242)
+                before = sn.observe()
+                sn.new_messages()
+                bv = spec.BlockView(cand)
+                rp = {'stale_result': True, 'trial': trial, 'peer_blocks_adopted_between_request_and_result': k_between,
+                      'other_worker_asked_for_work_in_between': other_worker, 'block': bv.bytes.hex()}
+                sn.node.activate()
+                try:
+                    with contextlib.redirect_stdout(io.StringIO()):
+                        mw.handle_scrypt_output_message(0, sh)
+                except Exception as e:
+                    ck.violation('found-block-handler-raises', 'a winning result for a candidate handed out before %d peer '
+                                 'block(s) were adopted makes the found-block handler raise %s: %s' % (k_between, type(e).__name__, e), rp)
+                    return
+                sn.pump()
+                after = sn.observe()
+                msgs = sn.new_messages()
+                ck.case(('stale', trial), kind='stale-result/%d-peer-blocks/%s' % (k_between, 'other-worker' if other_worker else 'same-worker'),
+                        sample={'peer_blocks_between': k_between, 'found_in_served_state': bv.id in after['blocks'],
+                                'served_head_is_found_block': after['head'] == bv.id, 'peer_blocks_still_served': head.id in after['blocks']}
+                        if trial < 6 else None)
+                if bv.id not in after['blocks']:
+                    ck.violation('found-block-not-in-served-state', 'a found block whose candidate was handed out before %d peer '
+                                 'block(s) were adopted is not part of the chain state the node serves' % k_between, rp)
+                if bv.id not in after['rows'] or after['buffer']:
+                    ck.violation('found-block-not-stored', 'the found block is not in the block store', rp)
+                for p in range(len(sn.peers)):
+                    cnt = sum(1 for (k, i, irt) in msgs[p] if k == 'block' and i == bv.id)
+                    if sn.connected(p) and cnt != 1:
+                        ck.violation('found-block-broadcast-count', 'the found block was sent %d times to a peer' % cnt, rp)
+                if k_between and head.id not in after['blocks']:
+                    ck.count('observation:peer-blocks-dropped-from-served-state-by-stale-found-block')
+                if sn.node.escaped:
+                    ck.violation('exception-escaped', 'an exception escaped: %s' % sn.node.escaped[0][1], rp)
+                arrived = [m for m in tg.nodes] + [chaingen.Node(cand, n, spec.apply_block(n.utxo, bv))]
+                return {'arrived': arrived, 'served_blocks': after['blocks'], 'served_head': after['head'], 'found': bv.id,
+                        'peer_tip': head.id, 'k_between': k_between, 'other_worker': other_worker, 'replay': rp,
+                        'served_tips': sorted(bytes(h) for h in sn.lp().chain_manager.coinstate.heads.keys())}
+            finally:
+                if old_time is not None:
+                    MI.time = old_time
+
+
 def run(tier, seed):
     ck = common.Check('C12', tier, seed)
     ck.rule = ('real MinerWatcher handlers in-process on a real node (real store, three peers, in every second scenario the first peer connection half torn down; in every second round a valid block from a peer stamped up to 29 s ahead of the clock is adopted between two work requests; every candidate handed out is checked for parent = served head and timestamp later than the parent): per round a pool of 0-3 valid '
@@ -277,6 +376,14 @@ def run(tier, seed):
                 ck.count('generator-gave-up(difficulty)')
                 continue
             ck.disagree('scenario %d crashed: %s' % (trial, tb[-600:]), {'trial': trial})
+    for trial in range(6 if tier == 'quick' else 18):
+        try:
+            stale_result_scenario(ck, trial, tier)
+        except Exception:
+            import traceback
+            tb = traceback.format_exc()
+            if 'could not mine a block' not in tb:
+                ck.disagree('stale-result scenario %d crashed: %s' % (trial, tb[-600:]), {'trial': trial})
     if r.ok and (ra or rn):
         outs = model.run_batch([x[0] for x in ra])
         for (req, want, rp), o in zip(ra, outs):
